@@ -7,6 +7,8 @@ import (
 	"reflect"
 	"strconv"
 	"strings"
+
+	"github.com/google/jsonschema-go/jsonschema"
 )
 
 // MyString is a named string type used as map key / string representation.
@@ -16,6 +18,21 @@ type MyString string
 type MyInt int
 type MyFloat float64
 
+// Declared struct types for values that are NOT what encoding/json decodes into `any` (the Extra map of a Schema built in Go can
+// hold them): their JSON names are deliberately not in alphabetical order. vlib/gen_values.py (STRUCTS) mirrors the field lists.
+type XGoType struct {
+	Package string `json:"package"`
+	Name    string `json:"name"`
+	Kind    int    `json:"kind"`
+}
+
+type XOrder struct {
+	Z     int      `json:"z"`
+	A     string   `json:"a"`
+	M     []string `json:"m"`
+	Inner *XGoType `json:"inner"`
+}
+
 // A value descriptor: {"t": <type expression>, "v": <payload>} or JSON null (the nil interface).
 //
 //	basic:      {"t":"int8","v":"-3"}  {"t":"float64","v":"1.5"}  {"t":"bool","v":true}
@@ -24,6 +41,10 @@ type MyFloat float64
 //	map         {"t":"map[mystring]any","v":[["k",d],…]}
 //	pointer     {"t":"*int","v":d}   {"t":"*int","v":null} (nil pointer)
 //	interface   elements of containers with element type any are interfaces automatically
+//	struct      {"t":"S:gotype","v":[d,d,d]}  a declared struct (XGoType, XOrder) with its fields given in declaration order
+//	            ({"t":"struct"} stays the zero value of an anonymous struct)
+//	raw JSON    {"t":"rawjson","v":"{\"b\":1,\"a\":2}"}   a json.RawMessage holding that text
+//	schema      {"t":"schema","v":"{\"type\":\"string\"}"}  a *jsonschema.Schema unmarshaled from that text
 type vdesc struct {
 	T string          `json:"t"`
 	V json.RawMessage `json:"v"`
@@ -54,7 +75,13 @@ var basicTypes = map[string]reflect.Type{
 	"chan":       reflect.TypeFor[chan int](),
 	"complex128": reflect.TypeFor[complex128](),
 	"struct":     reflect.TypeFor[struct{ A int }](),
+	"S:gotype":   reflect.TypeFor[XGoType](),
+	"S:order":    reflect.TypeFor[XOrder](),
+	"rawjson":    rawMessageT,
+	"schema":     reflect.TypeFor[*jsonschema.Schema](),
 }
+
+var rawMessageT = reflect.TypeFor[json.RawMessage]()
 
 func parseType(s string) (reflect.Type, error) {
 	if t, ok := basicTypes[s]; ok {
@@ -120,6 +147,21 @@ func build(raw json.RawMessage) (reflect.Value, error) {
 		return reflect.Value{}, err
 	}
 	v := reflect.New(t).Elem()
+	switch d.T {
+	case "rawjson", "schema":
+		var txt string
+		if err := json.Unmarshal(d.V, &txt); err != nil {
+			return v, err
+		}
+		if d.T == "rawjson" {
+			return reflect.ValueOf(json.RawMessage(txt)), nil
+		}
+		s := new(jsonschema.Schema)
+		if err := json.Unmarshal([]byte(txt), s); err != nil {
+			return v, err
+		}
+		return reflect.ValueOf(s), nil
+	}
 	switch t.Kind() {
 	case reflect.Bool:
 		var b bool
@@ -259,7 +301,29 @@ func build(raw json.RawMessage) (reflect.Value, error) {
 	case reflect.Complex128:
 		v.SetComplex(complex(1, 2))
 	case reflect.Struct:
-		// zero struct
+		// the zero struct, or the fields in declaration order
+		if d.V == nil || string(d.V) == "null" {
+			return v, nil
+		}
+		var items []json.RawMessage
+		if err := json.Unmarshal(d.V, &items); err != nil {
+			return v, err
+		}
+		if len(items) != t.NumField() {
+			return v, fmt.Errorf("struct %s has %d fields, descriptor %d", t, t.NumField(), len(items))
+		}
+		for i, it := range items {
+			e, err := build(it)
+			if err != nil {
+				return v, err
+			}
+			if e.IsValid() {
+				if !e.Type().AssignableTo(t.Field(i).Type) {
+					return v, fmt.Errorf("field value of type %s not assignable to %s", e.Type(), t.Field(i).Type)
+				}
+				v.Field(i).Set(e)
+			}
+		}
 	default:
 		return v, fmt.Errorf("unsupported descriptor type %s", t)
 	}
